@@ -86,7 +86,7 @@ def _b(res):
 
 
 def worker(item):
-    sc, seed = item
+    sc, seed = item[0], item[1]
     acc = Acc()
     op = sc['ops'][0]
     base = run_shape(sc)
@@ -115,6 +115,21 @@ def worker(item):
                 acc.case((repr(sc), vname, k, twice), outcome=(tuple(run['frames']), repr(run['result'])))
                 if probs:
                     acc.violation(csig(probs), dict(sc, intruder={'variant': vname, 'after_frame': k, 'twice': twice}), None, probs[:3])
+    if len(item) > 2 and item[2]:
+        # thorough: two different intruders at every ordered pair of injection points
+        names = list(variants)
+        for v1 in names:
+            for v2 in names:
+                if v1 == v2:
+                    continue
+                for k1 in range(0, n - 1):
+                    for k2 in range(k1, n - 1):
+                        run = run_shape(sc, [(k1, variants[v1]), (k2, variants[v2])])
+                        worst = 'same_sa_other_ptr' if 'same_sa_other_ptr' in (v1, v2) else v1
+                        probs = judge(base, run, worst, op)
+                        acc.case((repr(sc), v1, v2, k1, k2), outcome=(tuple(run['frames']), repr(run['result'])))
+                        if probs:
+                            acc.violation(csig(probs), dict(sc, intruder={'variant': v1, 'after_frame': k1, 'second': [v2, k2]}), None, probs[:3])
     acc.add('window_frames', n - 1)
     acc.sample({'scenario': sc, 'frames_in_transaction': n, 'intruder': 'other_sa_same_ptr after frame 2'})
     return acc
@@ -152,7 +167,7 @@ ASSUME = ["the window ends when the closing operation-completed DM14 is on the b
 
 
 def run(tier, seed):
-    items = [(sc, seed) for sc in scenarios(tier)]
+    items = [(sc, seed, tier != 'quick') for sc in scenarios(tier)]
     return run_check(PROP, tier, seed, 'fault_enumeration', items, worker, RULE, ASSUME,
                      bounds={'injection_points': 'after every frame of the transaction window', 'injections_per_run': '1..2'})
 
@@ -170,6 +185,8 @@ def replay(rec):
     }
     fr = variants[intr['variant']]
     inj = [(intr['after_frame'], fr)]
+    if intr.get('second'):
+        inj.append((intr['second'][1], variants[intr['second'][0]]))
     if intr.get('twice') == 'same':
         inj.append((intr['after_frame'], fr))
     elif intr.get('twice') == 'next':
